@@ -1,8 +1,14 @@
 #!/bin/sh
-# Runs the repository's own test suite with the guard OFF in a scratch build directory outside /repo and /verif.
+# Runs the repository's own test suite with the guard OFF (no -DPHOTOSPLINE_VERIF) in a scratch build directory outside
+# /repo and /verif, configured like the pinned baseline build (/repo/_build/CMakeCache.txt: RelWithDebInfo, -Wno-error,
+# tests on). Targets that do not build on the pinned tree either (the cphotospline C wrapper library under g++ 12) are
+# skipped with -k 0, exactly as in the baseline; the three test executables hold all 21 test cases.
 set -e
 B=$(mktemp -d /var/tmp/ps_baseline.XXXXXX)
 trap 'rm -rf "$B"' EXIT
-cmake -G Ninja -S /repo -B "$B" >/dev/null
-cmake --build "$B" >/dev/null
+cmake -G Ninja -S /repo -B "$B" -DCMAKE_BUILD_TYPE=RelWithDebInfo -DCMAKE_CXX_FLAGS=-Wno-error -DCMAKE_C_FLAGS=-Wno-error -DBUILD_TESTING=ON >/dev/null
+cmake --build "$B" -- -k 0 >"$B/build.log" 2>&1 || true
+for t in photospline-test photospline-test-templated photospline-test-fit; do
+  [ -x "$B/$t" ] || { echo "baseline build failed: $t missing"; tail -30 "$B/build.log"; exit 2; }
+done
 ctest --test-dir "$B" -j8 --timeout 900
